@@ -55,6 +55,11 @@ pub const PADDINGS: &[(&str, &str, bool)] = &[
     ("crlf-blank-lines", "\r\n\r\n\r\n", false),
     ("string-literal-same-line", "derive {s0 = 'é中🐢'} | ", true),
     ("backtick-ident-same-line", "derive {`çé 🐢` = 1} | ", true),
+    // a byte-order mark as the very first character of the file holding the error (before a header too): the
+    // compiler may reject the mark itself (then that is the offending text) or accept it and report the error
+    // of the template where it is
+    ("bom-at-file-start", "\u{feff}", false),
+    ("bom-then-2-byte-comment-line", "\u{feff}# é\n", false),
 ];
 
 /// text after the erroneous program, in the file that holds it (an error found at the end of the input
@@ -84,6 +89,8 @@ pub struct Built {
     /// file holding the error and the offending region in *character* offsets
     pub err_file: String,
     pub region: (usize, usize),
+    /// other regions an error may legitimately point at (the byte-order mark of a file that starts with one)
+    pub alt_regions: Vec<(usize, usize)>,
 }
 
 fn strip_marks(t: &str) -> (String, (usize, usize)) {
@@ -105,6 +112,8 @@ pub fn build(c: &CaseSpec) -> Built {
     let (_, _, tpl) = TEMPLATES[c.template];
     let (pname, ptext, same_line) = PADDINGS[c.padding];
     let _ = pname;
+    let bom = ptext.starts_with('\u{feff}');
+    let ptext = ptext.trim_start_matches('\u{feff}');
     let (body, (a, b)) = strip_marks(tpl);
     // a `prql` header must stay first: padding goes after it
     let (header, rest, hdr_chars) = match body.strip_prefix("prql ") {
@@ -134,18 +143,25 @@ pub fn build(c: &CaseSpec) -> Built {
     let modtext = format!("{}{trailer}", if wraps { wrap_as_module(&content) } else { content.clone() });
     let content = format!("{content}{trailer}");
     let modregion = if wraps { shift_region(&content, region) } else { region };
+    let (content, modtext, region, modregion, alt_regions) = if bom {
+        (format!("\u{feff}{content}"), format!("\u{feff}{modtext}"), (region.0 + 1, region.1 + 1), (modregion.0 + 1, modregion.1 + 1), vec![(0, 1)])
+    } else {
+        (content, modtext, region, modregion, vec![])
+    };
     let main_for_module = if wraps { "from helpers.bad\n".to_string() } else { "from t | select {a}\n".to_string() };
     match c.placement {
-        0 => Built { files: vec![("".into(), content)], err_file: "".into(), region },
+        0 => Built { files: vec![("".into(), content)], err_file: "".into(), region, alt_regions },
         1 => Built {
             files: vec![("Main.prql".into(), content), ("helpers.prql".into(), "let double = x -> x * 2\n".into())],
             err_file: "Main.prql".into(),
             region,
+            alt_regions,
         },
         2 => Built {
             files: vec![("Main.prql".into(), main_for_module), ("helpers.prql".into(), modtext)],
             err_file: "helpers.prql".into(),
             region: modregion,
+            alt_regions: alt_regions.clone(),
         },
         _ => Built {
             files: vec![
@@ -155,6 +171,7 @@ pub fn build(c: &CaseSpec) -> Built {
             ],
             err_file: "helpers.prql".into(),
             region: modregion,
+            alt_regions: alt_regions.clone(),
         },
     }
 }
@@ -314,6 +331,11 @@ fn check_spans(b: &Built, errs: &prqlc::ErrorMessages, stage: &str, conv: Conv) 
         // reported as an empty span there
         if bs <= rz && be >= ra {
             any_overlap = true;
+        }
+        for (x, y) in &b.alt_regions {
+            if bs <= rb(*y) && be >= rb(*x) {
+                any_overlap = true;
+            }
         }
     }
     if any_span && !any_overlap {
@@ -481,17 +503,27 @@ pub fn run(tier: Tier) -> i32 {
             // (1) a stray character in place of the token: lexer error exactly there
             if matches!(t.kind, prqlc_parser::lexer::lr::TokenKind::Ident(_) | prqlc_parser::lexer::lr::TokenKind::Literal(_)) && !text.contains(|c: char| c == '\n') {
                 let edited = format!("{}^{}", &src[..a], &src[b..]);
-                edits.push((format!("{name}@{ca}:stray-char"), Built { files: vec![("".into(), edited)], err_file: "".into(), region: (ca, ca + 1) }, "lexer"));
+                edits.push((format!("{name}@{ca}:stray-char"), Built { files: vec![("".into(), edited)], err_file: "".into(), region: (ca, ca + 1), alt_regions: vec![] }, "lexer"));
             }
             // (2) an unknown function in place of a transform name: resolver error at that token
             if TRANSFORMS.contains(&text) {
                 let repl = "zz_no_such_fn";
                 let edited = format!("{}{repl}{}", &src[..a], &src[b..]);
                 // the call as a whole may be blamed: allow the span to start at the token and extend to the line end
-                edits.push((format!("{name}@{ca}:unknown-function"), Built { files: vec![("".into(), edited)], err_file: "".into(), region: (ca, ca + repl.len()) }, "resolver"));
+                edits.push((format!("{name}@{ca}:unknown-function"), Built { files: vec![("".into(), edited)], err_file: "".into(), region: (ca, ca + repl.len()), alt_regions: vec![] }, "resolver"));
             }
         }
     }
+    // the same edits in a file that starts with a byte-order mark: the mark may be rejected (then it is the
+    // offending text) or accepted — the error is where it is either way
+    let bom_twins: Vec<(String, Built, &'static str)> = edits
+        .iter()
+        .filter(|(n, _, _)| !n.contains("+crlf"))
+        .map(|(n, b, st)| {
+            (format!("{n}+bom"), Built { files: vec![("".into(), format!("\u{feff}{}", b.files[0].1))], err_file: "".into(), region: (b.region.0 + 1, b.region.1 + 1), alt_regions: vec![(0, 1)] }, *st)
+        })
+        .collect();
+    edits.extend(bom_twins);
     let outs = par_map(&edits, || (), |_, (_, b, stage)| check(b, stage));
     for ((name, b, stage), bad) in edits.iter().zip(outs) {
         run.validated += 1;
